@@ -1,5 +1,5 @@
 # replay of a bounded stand-in violation (C02): re-run native/c02_preps.py
 import sys
-print('BipartiteGraphEmbed(mean_photon_per_mode=0.25, edges=False) on modes (0, 1, 2, 3): total mean photon number 4.00000, requested 1.0')
+print('MZgate._decompose puts one operation object into several commands (inverting the decomposition flips its flag twice)')
 print('REPLAY-VIOLATION')
 sys.exit(1)
